@@ -163,6 +163,18 @@ theorem c01_tool_path (T : Tables) (env : Env) (tools : List ToolReg) (allowed :
   · exact ⟨[], by simp, Or.inl rfl⟩
   · exact ⟨[], by simp, Or.inl rfl⟩
 
+/-- The same for what `metabolize` actually dispatches to (`toolPathway` = tree-level repeated-keyword check, then
+    `toolPath`): the check only adds a failure that executes nothing. -/
+theorem c01_tool_pathway (T : Tables) (env : Env) (tools : List ToolReg) (allowed : Option (List String)) (e : Expr) :
+    ∃ pre, (∀ a ∈ pre, Allowed T env a) ∧
+      ((toolPathway T env tools allowed e).1 = pre ∨
+       ∃ tn args kn kv t as ks, e = .call (.name tn) args kn kv ∧ findTool tools tn = some t ∧
+         capsOk allowed t = true ∧ (toolPathway T env tools allowed e).1 = pre ++ [.tool tn as ks]) := by
+  unfold toolPathway
+  split
+  · exact ⟨[], by simp, Or.inl rfl⟩
+  · exact c01_tool_path T env tools allowed e
+
 /-- Over-long input and a latched engine execute nothing at all and report failure. -/
 theorem c01_guards_run_nothing (T : Tables) (env : Env) (cfg : Cfg) (latched : Bool) (d : Pathway) (inp : Inp)
     (forced : Option Pathway) (h : inp.len > cfg.maxLen ∨ latched = true) :
